@@ -137,7 +137,7 @@ package swagen30
 //@ ensures result.OperationID == route.OperationId && result.Deprecated == route.Deprecation.Deprecated && result.Description == route.Description
 //@ ensures len(result.Tags) == 1 && result.Tags[0] == def.Tag && len(result.Parameters) == 0 && fresh(result.Parameters) && result.RequestBody == nil && result.Responses != nil
 
-//@ func setNewRouteOperation props C01,C14
+//@ func setNewRouteOperation props C01,C08,C14
 //@ requires openapi != nil && openapi.Paths != nil
 //@ modifies any(openapi3.PathItem), any(openapi3.Paths)
 //@ mayemit opRegistered, pathSet
